@@ -229,6 +229,38 @@ def suite_solver(ctx, core):
                 " | ".join(line(from_float(a)) for a in
                            [*hs, *e0, ce.fx, ce.fy, ce.fz]))
             checks.append(('prolong', sc, shp, [ef.fx, ef.fy, ef.fz], shp))
+            # a "twin" mesh right afterwards: same shape, origin and extent,
+            # other interior nodes (pairs of widths swapped) - the weights
+            # must be those of the mesh at hand, not of an earlier one
+            hs2 = []
+            for d in range(3):
+                h2 = hs[d].copy()
+                if COARS[sc][d] and h2.size >= 2:
+                    h2 = h2.reshape(-1, 2)[:, ::-1].ravel().copy()
+                    if np.array_equal(h2, hs[d]):
+                        h2[0], h2[1] = h2[0]*0.5, h2[1] + h2[0]*0.5
+                else:
+                    h2 = h2[::-1].copy()
+                hs2.append(h2)
+            grid2 = emg3d.TensorMesh(hs2, origin=(0, 0, 0))
+            h2c = [hs2[d].reshape(-1, 2).sum(1) if COARS[sc][d] else hs2[d]
+                   for d in range(3)]
+            cgrid2 = emg3d.TensorMesh(h2c, origin=(0, 0, 0))
+            ef2 = emg3d.Field(grid2, frequency=sf._frequency)
+            ef2.field[:] = rng.integers(-8, 9, ef2.field.size)
+            ce2 = emg3d.Field(cgrid2, frequency=sf._frequency)
+            ce2.field[:] = rng.integers(-8, 9, ce2.field.size)
+            e02 = [ef2.fx.copy(), ef2.fy.copy(), ef2.fz.copy()]
+            try:
+                S.prolongation(ef2, ce2, sc)
+                lines.append(
+                    f"prolong {sc} {shp[0]} {shp[1]} {shp[2]} | " +
+                    " | ".join(line(from_float(a)) for a in
+                               [*hs2, *e02, ce2.fx, ce2.fy, ce2.fz]))
+                checks.append(('prolong-twin-mesh', sc, shp,
+                               [ef2.fx, ef2.fy, ef2.fz], shp))
+            except Exception as e:
+                bad.append((sc, shp, f'prolongation (twin) raised {e}'))
             ctx.count(key=('solver', sc, shp, case))
     out = common.run_driver(lines, jobs=8)
     for (what, sc, shp, got, oshp), o in zip(checks, out):
@@ -258,9 +290,23 @@ def suite_oracle(ctx, core):
               4: (4, 3, 3), 5: (3, 4, 3), 6: (3, 3, 4)}
     pats = range(7) if ctx.thorough else [0, int(rng.integers(1, 4)),
                                           int(rng.integers(4, 7))]
+    # every pattern twice: the second mesh has the same shape, origin and
+    # extent as the first, but other interior nodes (no state may survive)
+    runs = []
     for sc in pats:
         shp = shapes[sc]
         hs = [rng.uniform(0.5, 4.0, n) for n in shp]
+        runs.append((sc, shp, hs))
+        hs2 = []
+        for d in range(3):
+            h2 = hs[d].copy()
+            if COARS[sc][d]:
+                h2 = h2.reshape(-1, 2)[:, ::-1].ravel().copy()
+            else:
+                h2 = h2[::-1].copy()
+            hs2.append(h2)
+        runs.append((sc, shp, hs2))
+    for sc, shp, hs in runs:
         grid = emg3d.TensorMesh(hs, origin=(0, 0, 0))
         cgrid = emg3d.TensorMesh(
             [h.reshape(-1, 2).sum(1) if c else h
